@@ -502,6 +502,98 @@ def check_rebuild(res, k1, k2):
         _viol(res, "C06|X-rebuild|pipeline|raises", "[%s] rebuilt with k=%r raised %s: %s" % (text, k2, type(e).__name__, e), case, "EXC %s" % type(e).__name__, None)
 
 
+def check_shared_list(res, k1, k2):
+    """two systems built one after the other from ONE list of reactions that the caller keeps extending: the first system stays
+    the one-step network it was built as (its trajectory is the same before and after the second construction)"""
+    import numpy as np
+    from chempy import Reaction, ReactionSystem, Substance
+    from chempy.kinetics.ode import get_odesys
+
+    case = dict(layer="X", what="shared-list", k1=k1, k2=k2)
+    what = "systems [A -> B; %r] and then [A -> B; %r | B -> C; %r] built from one growing list" % (k1, k1, k2)
+    res.states += 1
+    res.nontrivial += 1
+    res.transitions += 3
+    res.evaluations += 2
+    try:
+        subst = lambda names: [Substance(n, composition={1: 1}) for n in names]
+        rxns = [Reaction({"A": 1}, {"B": 1}, k1)]
+        first = ReactionSystem(rxns, subst("AB"))
+        c0 = {"A": 1.0, "B": 0.25}
+        exact1 = [{"A": math.exp(-k1 * t), "B": 0.25 + 1 - math.exp(-k1 * t)} for t in TOUT]
+        r1 = get_odesys(first)[0].integrate(list(TOUT), dict(c0), atol=1e-12, rtol=1e-12, nsteps=NSTEPS)
+        ok = _check_rows(res, "X", case, what + ": first system, first integration", list("AB"), c0, r1, exact1, {"A": 1.25, "B": 1.25})
+        rxns.append(Reaction({"B": 1}, {"C": 1}, k2))
+        second = ReactionSystem(rxns, subst("ABC"))
+        r1b = get_odesys(first)[0].integrate(list(TOUT), dict(c0), atol=1e-12, rtol=1e-12, nsteps=NSTEPS)
+        ok &= _check_rows(res, "X", case, what + ": first system after the second was built", list("AB"), c0, r1b, exact1, {"A": 1.25, "B": 1.25})
+        if len(first.rxns) != 1 or len(second.rxns) != 2:
+            ok = False
+            _viol(res, "C06|X|shared-list|reaction-count", "%s: the systems hold %d and %d reactions" % (what, len(first.rxns), len(second.rxns)), case, [len(first.rxns), len(second.rxns)], [1, 2])
+        res.outcomes["X shared list: %s" % ("ok" if ok else "WRONG")] += 1
+    except Exception as e:
+        _viol(res, "C06|X|shared-list|raises", "%s raised %s: %s" % (what, type(e).__name__, e), case, "EXC %s" % type(e).__name__, None)
+
+
+def check_unbalanced_line(res, pos):
+    """a text in which one line creates matter (NO2 -> N2O4), at every position among balanced lines: the pipeline refuses it
+    (ValueError) — were it accepted, the integration would leave the elemental supply"""
+    lines = ["N2O4 -> 2 NO2; 0.5", "2 NO2 -> N2O4; 3.0"]
+    lines.insert(pos, "NO2 -> N2O4; 2.0")
+    text = "\n".join(lines)
+    case = dict(layer="X", what="unbalanced-line", pos=pos)
+    res.states += 1
+    res.nontrivial += 1
+    res.transitions += 1
+    res.evaluations += 1
+    try:
+        rsys, odesys, extra = _pipeline(text)
+    except ValueError:
+        res.outcomes["X unbalanced line at position %d: refused" % pos] += 1
+        return
+    except Exception as e:
+        _viol(res, "C06|X|unbalanced-line|wrong-exception", "[%s] raised %s: %s" % (text.replace("\n", " | "), type(e).__name__, e), case, "EXC %s" % type(e).__name__, "ValueError")
+        return
+    c0 = {"NO2": 1.0, "N2O4": 0.5}
+    upper = {"NO2": 2.0, "N2O4": 1.0}
+    try:
+        result = odesys.integrate([0.0, 1.0, 10.0], dict(c0), atol=1e-12, rtol=1e-12, nsteps=NSTEPS)
+        y = {n: [float(v) for v in result.yout[:, i]] for i, n in enumerate(odesys.names)}
+    except Exception as e:
+        y = "EXC %s" % type(e).__name__
+    res.outcomes["X unbalanced line at position %d: ACCEPTED" % pos] += 1
+    _viol(res, "C06|X|unbalanced-line|accepted", "[%s] (line %d creates matter) was accepted; from %r it integrates to %r, elemental supply %r" % (text.replace("\n", " | "), pos + 1, c0, y, upper), case, y, "ValueError")
+
+
+def check_expanded_equilibrium(res, kf, kb, a, b, c):
+    """A + B + (S) = C written as an equilibrium with an inactive reactant and expanded with as_reactions: A, B, C follow the
+    reversible bimolecular closed form and S follows the extent (consumed forward, released backward)"""
+    from chempy import Equilibrium, ReactionSystem, Substance
+    from chempy.kinetics.ode import get_odesys
+
+    case = dict(layer="X", what="expanded-equilibrium", kf=kf, kb=kb, a=a, b=b, c=c)
+    what = "Equilibrium(A + B + (S) = C; K=%r).as_reactions(kf=%r)" % (kf / kb, kf)
+    res.states += 1
+    res.nontrivial += 1
+    res.transitions += 2
+    res.evaluations += 1
+    S0 = 2.0
+    c0 = {"A": a, "B": b, "S": S0, "C": c}
+    exact = []
+    for t in TOUT:
+        x = float(bimol_exact(kf, kb, a, b, c, t))
+        exact.append({"A": a - x, "B": b - x, "S": S0 - x, "C": c + x})
+    try:
+        eq = Equilibrium({"A": 1, "B": 1}, {"C": 1}, kf / kb, inact_reac={"S": 1})
+        rsys = ReactionSystem(eq.as_reactions(kf=kf), [Substance(n) for n in "ABSC"])
+        odesys = get_odesys(rsys)[0]
+        result = odesys.integrate(list(TOUT), dict(c0), atol=1e-12, rtol=1e-12, nsteps=NSTEPS)
+        ok = _check_rows(res, "X", case, "%s from %s" % (what, c0), list(odesys.names), c0, result, exact, {n: float("inf") for n in "ABSC"})
+        res.outcomes["X expanded equilibrium: %s" % ("ok" if ok else "WRONG")] += 1
+    except Exception as e:
+        _viol(res, "C06|X|expanded-equilibrium|raises", "%s raised %s: %s" % (what, type(e).__name__, e), case, "EXC %s" % type(e).__name__, None)
+
+
 MANUAL_MASKS = [273, 785, 3584, 265, 2457]  # chain, cycle, star out of the last isomer, reversible pair + step, mixed (n = 4)
 
 
@@ -636,6 +728,13 @@ def run_chunk(chunk, tier):
         for mask in MANUAL_MASKS:
             for p in (0, 1):
                 check_manual_rhs(res, mask, p)
+        for k1, k2 in itertools.permutations((0.5, 3.0, 40.0), 2):
+            check_shared_list(res, k1, k2)
+        for pos in (0, 1, 2):
+            check_unbalanced_line(res, pos)
+        for kf, kb in ((0.5, 0.1), (2.0, 1.0), (30.0, 10.0)):
+            for a, b, c in ((0.3, 1.0, 0.2), (1.0, 1.0, 0.0), (2.5, 0.3, 1.0)):
+                check_expanded_equilibrium(res, kf, kb, a, b, c)
         res.sample(dict(layer="X", slices=["hand-assembled rhs before/after in-place re-ordering of the substances", "rebuild after re-assigning a rate constant", "two customised parsing contexts", "reactant without elemental bound"]), limit=1)
     elif chunk[0] == "D":
         _, direction = chunk
@@ -660,6 +759,12 @@ def replay(case):
     if case["layer"] == "X":
         if case["what"] == "rebuild":
             check_rebuild(res, case["k1"], case["k2"])
+        elif case["what"] == "shared-list":
+            check_shared_list(res, case["k1"], case["k2"])
+        elif case["what"] == "unbalanced-line":
+            check_unbalanced_line(res, case["pos"])
+        elif case["what"] == "expanded-equilibrium":
+            check_expanded_equilibrium(res, case["kf"], case["kb"], case["a"], case["b"], case["c"])
         elif case["what"] == "manual":
             check_manual_rhs(res, case["mask"], case["p"])
         elif case["what"] == "contexts":
